@@ -9,7 +9,9 @@ partial file.  Offline checker (shared with C04): the resumed run ends with a
 target identical to B and whole-data validation 1, and the body bytes it
 requests are exactly the extents of the chunks that were NOT completely and
 correctly present in the snapshot (nothing intact is fetched again, no partial
-chunk is trusted).  Sampled double kills: the resume is killed too."""
+chunk is trusted).  Sampled double kills: the resume is killed too.  The same
+is done to the REAL zckdl binary (LD_PRELOAD kill shim) against the loopback
+range server, judged from the server's request log."""
 import os
 import sys
 
@@ -35,7 +37,86 @@ def script(sc, fault=None):
     return "\n".join(L) + "\n"
 
 
+def real_worker(case):
+    """Kill the REAL zckdl (plain build, LD_PRELOAD shim) at a target write, resume it, judge the resume from the server's log."""
+    import rangesrv
+    cdir = case["dir"]
+    keep = False
+    sc = case["sc"]
+    B = core.unb64(sc["B"])
+    A = core.unb64(sc["A"]) if sc["A"] else None
+    T0 = core.unb64(sc["T0"]) if sc["T0"] is not None else None
+    cid = core.h8(["real", sc["name"], case["points"]])
+    stats = {"evaluations": 0}
+    try:
+        pB = zckref.parse(B)
+        pA = zckref.parse(A) if A else None
+        wdir = os.path.join(case["www"], cid)
+        os.makedirs(wdir, exist_ok=True)
+        open(os.path.join(wdir, "tgt.zck"), "wb").write(B)
+        nontriv = set()
+        viol = None
+        for (k, j) in case["points"]:
+            kd = os.path.join(cdir, "k%d_%d" % (k, 100 - j if j < 0 else j))
+            os.makedirs(kd, exist_ok=True)
+            if T0 is not None:
+                open(os.path.join(kd, "tgt.zck"), "wb").write(T0)
+            argv = [case["zckdl"]]
+            if A:
+                open(os.path.join(kd, "A.zck"), "wb").write(A)
+                argv += ["-s", "A.zck"]
+
+            def url(run):
+                return "http://127.0.0.1:%d/~maxr=%d;run=%s-%d-%d-%d/%s/tgt.zck" % (case["port"], sc["maxr"], cid, k, 100 - j if j < 0 else j, run, cid)
+            env = {"PATH": os.environ.get("PATH", "/usr/bin:/bin"), "LC_ALL": "C", "TMPDIR": kd, "no_proxy": "*", "NO_PROXY": "*", "LD_PRELOAD": case["preload"],
+                   "ZCKV_CLASSES": "target=tgt.zck", "ZCKV_LOG": os.path.join(kd, "pl.log"), "ZCKV_FAULT": "target:write:%d:6:%d" % (k, j)}
+            r1 = core.run_proc(argv + [url(1)], kd, env=env, cpu=60)
+            stats["evaluations"] += 1
+            if r1.timed_out and not r1.cpu_exceeded:
+                return core.verdict(cid, "inconclusive", detail="watchdog", case=case)
+            ev = core.parse_log(os.path.join(kd, "pl.log"))
+            inj = [e for e in ev if e.get("kill")]
+            if r1.rc != 77 or not inj:
+                stats["kill_points_not_reached"] = stats.get("kill_points_not_reached", 0) + 1
+                core.cleanup_case(kd, False)
+                continue
+            stats["kills_fired"] = stats.get("kills_fired", 0) + 1
+            snap = open(os.path.join(kd, "tgt.zck"), "rb").read()
+            E, copied, already = c04.expected_fetch(pB, B, pA, snap)
+            env2 = {k_: v_ for k_, v_ in env.items() if not k_.startswith(("LD_PRELOAD", "ZCKV_"))}
+            r2 = core.run_proc(argv + [url(2)], kd, env=env2, cpu=60)
+            stats["evaluations"] += 1
+            cs = core.crash_signatures(r2, where="tool:zckdl")
+            where = "header" if inj[0]["off"] < pB.header_len else "body"
+            if cs:
+                viol = (cs[0], "zckdl crashed on resume after kill k=%d j=%d: %s" % (k, j, cs), kd)
+            elif r2.rc != 0:
+                viol = ("c11:real:resume-failed:exit%s:%s" % (r2.rc, where), "zckdl resume after kill k=%d j=%d (offset %d) exit %s: %r" % (k, j, inj[0]["off"], r2.rc, r2.stderr[-300:]), kd)
+            else:
+                final = open(os.path.join(kd, "tgt.zck"), "rb").read()
+                ents = rangesrv.requests_for(case["httplog"], "run=%s-%d-%d-2/" % (cid, k, 100 - j if j < 0 else j))
+                reqs, n200 = rangesrv.body_requests(ents, pB.header_len)
+                v = c04.judge_history(pB, B, E, reqs, final, "real:" + where)
+                if v:
+                    viol = (v[0].replace("c04:", "c11:real:resume:"), v[1] + " (kill k=%d j=%d at offset %d, %d chunks intact at the kill)" % (k, j, inj[0]["off"], len(already)), kd)
+                stats["chunks_intact_at_kill"] = stats.get("chunks_intact_at_kill", 0) + len(already)
+            if viol:
+                break
+            nontriv.add(core.h8([sc["name"], "real", k, j]))
+            core.cleanup_case(kd, False)
+        if viol:
+            keep = True
+            return core.verdict(cid, "violated", [viol[0]], stats, detail=viol[1] + " scenario=%s (real zckdl)" % sc["name"], cdir=viol[2], case=case)
+        return core.verdict(cid, "held", stats=stats, nontrivial=nontriv, sample={"real_zckdl": True, "scenario": sc["name"], "kill_points": case["points"][:6], "server_max_ranges": sc["maxr"]})
+    finally:
+        core.cleanup_case(cdir, keep)
+        import shutil
+        shutil.rmtree(os.path.join(case["www"], core.h8(["real", sc["name"], case["points"]])), ignore_errors=True)
+
+
 def worker(case):
+    if case.get("real"):
+        return real_worker(case)
     cdir = case["dir"]
     keep = False
     sc = case["sc"]
@@ -132,7 +213,7 @@ def worker(case):
 class C11(core.Check):
     prop = "C11"
     level = "fault_enumeration"
-    flavours = ["asan"]
+    flavours = ["asan", "plain"]
     rule = ("scenarios (A or none, B, initial target absent/partial, limit, single/multipart, fragmentation incl. 1 byte per callback so that kills land inside "
             "part headers' carry-over and mid-chunk); a fault-free run counts the target write(2) calls N; kill points = EVERY k in 1..N x j in {0,1,half,len-1} bytes "
             "transferred (exhaustive per scenario for scenarios up to the size cap, sampled above), plus sampled double kills (resume killed again). "
@@ -142,7 +223,39 @@ class C11(core.Check):
     worker = staticmethod(worker)
 
     def prepare(self, fl):
-        return {"zh": build.zh(fl["asan"])}
+        import rangesrv
+        self.srv = rangesrv.Server(self.work)
+        so = os.path.join(fl["plain"].dir, "preload_io.so")
+        build._run(["gcc", "-O1", "-g", "-shared", "-fPIC", "-o", so, os.path.join(core.VERIF, "harness", "preload_io.c"), "-ldl"], what="preload_io.so")
+        return {"zh": build.zh(fl["asan"]), "zckdl": fl["plain"].tool("zckdl"), "preload": so, "www": self.srv.www, "httplog": self.srv.log, "port": self.srv.port}
+
+    def post(self, verdicts, ctx):
+        self.srv.stop()
+        return []
+
+    def probe_real(self, ctx, sc, B, A, T0, si):
+        """Fault-free run of the real zckdl under the shim: how many write(2) calls reach the target?"""
+        d = os.path.join(self.work, "rprobe%d" % si)
+        os.makedirs(d, exist_ok=True)
+        w = os.path.join(ctx["www"], "rprobe%d" % si)
+        os.makedirs(w, exist_ok=True)
+        open(os.path.join(w, "tgt.zck"), "wb").write(B)
+        argv = [ctx["zckdl"]]
+        if A:
+            open(os.path.join(d, "A.zck"), "wb").write(A)
+            argv += ["-s", "A.zck"]
+        if T0 is not None:
+            open(os.path.join(d, "tgt.zck"), "wb").write(T0)
+        env = {"PATH": os.environ.get("PATH", "/usr/bin:/bin"), "LC_ALL": "C", "TMPDIR": d, "no_proxy": "*", "NO_PROXY": "*", "LD_PRELOAD": ctx["preload"],
+               "ZCKV_CLASSES": "target=tgt.zck", "ZCKV_LOG": os.path.join(d, "pl.log")}
+        r = core.run_proc(argv + ["http://127.0.0.1:%d/~maxr=%d/rprobe%d/tgt.zck" % (ctx["port"], sc["maxr"], si)], d, env=env, cpu=60)
+        n = 0
+        for e in core.parse_log(os.path.join(d, "pl.log")):
+            if e.get("ev") == "iocount" and e["cls"] == "target" and e["sys"] == "write":
+                n = e["n"]
+        if r.rc != 0 or n == 0:
+            raise RuntimeError("fault-free real zckdl run failed: rc=%s writes=%d %r" % (r.rc, n, r.stderr[-200:]))
+        return n
 
     def cases(self, ctx):
         r = core.rng(self.seed, "C11", "gen")
@@ -205,4 +318,39 @@ class C11(core.Check):
             self.count("target_writes_total", n)
             for i in range(0, len(pts), 24):
                 out.append({"sc": sc, "points": pts[i:i + 24], "zh": ctx["zh"], "nwrites": n})
+            # the real zckdl on the same files: kill points at every target write it makes (its writes are fewer and larger)
+            if si < (2 if self.quick else 20):
+                rsc = dict(sc, maxr=r.choice([1, 2, 7, 256]))
+                nreal = self.probe_real(ctx, rsc, B, A, T0, si)
+                rpts = [(k, j) for k in range(1, nreal + 1) for j in (0, 1, -1, -2)]
+                self.count("real_zckdl_target_writes", nreal)
+                self.count("real_zckdl_kill_points_enumerated", len(rpts))
+                for i in range(0, len(rpts), 16):
+                    out.append({"real": True, "sc": rsc, "points": rpts[i:i + 16], "zckdl": ctx["zckdl"], "preload": ctx["preload"], "www": ctx["www"],
+                                "httplog": ctx["httplog"], "port": ctx["port"]})
+        # larger files for the real tool only: many chunks, multi-KB bodies (curl delivers them in several callbacks)
+        for bi in range(2 if self.quick else 12):
+            comp = r.choice([0, 2])
+            pieces = [gen.content(r.choice(["random", "text"]), r.randrange(200, 30000), r.random()) for _ in range(r.choice([12, 30]))]
+            B = zckref.make_file(pieces, comp_type=comp, chunk_hash_type=r.randrange(4), hash_type=r.randrange(4))
+            pB = zckref.parse(B)
+            A = zckref.make_file([p_ for p_ in pieces if r.random() < 0.3] + [b"zz" * 100], comp_type=comp, chunk_hash_type=pB.chunk_hash_type) if bi % 2 else None
+            d = bytearray(B)
+            for c in pB.chunks:
+                if c["comp_len"] and r.random() < 0.6:
+                    a = pB.header_len + c["start"]
+                    d[a:a + c["comp_len"]] = bytes(c["comp_len"])
+            T0 = bytes(d) if bi % 3 else None
+            rsc = {"name": "rbig%d" % bi, "A": core.b64(A) if A else None, "B": core.b64(B), "T0": core.b64(T0) if T0 is not None else None, "maxr": r.choice([1, 3, 256])}
+            nreal = self.probe_real(ctx, rsc, B, A, T0, 1000 + bi)
+            ks = list(range(1, nreal + 1))
+            if len(ks) > 60:
+                ks = sorted(r.sample(ks, 60))
+                self.exhaustive = False
+            rpts = [(k, j) for k in ks for j in (0, -1, -2)]
+            self.count("real_zckdl_target_writes", nreal)
+            self.count("real_zckdl_kill_points_enumerated", len(rpts))
+            for i in range(0, len(rpts), 12):
+                out.append({"real": True, "sc": rsc, "points": rpts[i:i + 12], "zckdl": ctx["zckdl"], "preload": ctx["preload"], "www": ctx["www"],
+                            "httplog": ctx["httplog"], "port": ctx["port"]})
         return out
